@@ -306,7 +306,9 @@ func Name(r *rand.Rand, o NameOpts) string {
 	return s
 }
 
-var specialNames = []string{"null", "Null", "true", "false", "yes", "no", "on", "off", "~", "nan", "inf", "NaN", "1e3", "0x10", "12", "0.5", ".5", "1_000", "...", ".", "..", "%YAML 1.2", "!!str", "&anchor", "*alias", "<<", "@at", "`tick`", "|", ">", "[a]", "{a}", "a, b", "a=b", "$HOME", "${x}", "%s", "%d", "{{.}}", "\\n", "C:\\food", "<b>", "&amp;", "'", "''", "a'b", "(", ")", "*", "?", "+1", "1/2", "1:2"}
+var specialNames = []string{"null", "Null", "true", "false", "yes", "no", "on", "off", "~", "nan", "inf", "NaN", "1e3", "0x10", "12", "0.5", ".5", "1_000", "...", ".", "..", "%YAML 1.2", "!!str", "&anchor", "*alias", "<<", "@at", "`tick`", "|", ">", "[a]", "{a}", "a, b", "a=b", "$HOME", "${x}", "%s", "%d", "{{.}}", "\\n", "C:\\food", "<b>", "&amp;", "'", "''", "a'b", "(", ")", "*", "?", "+1", "1/2", "1:2",
+	// a separator-and-comment-character sequence inside a name (only the last colon of a line separates)
+	"tea: #2 blend", "a: #", "mix: # x: y", "b:#c", "soup: ; thick"}
 
 // Names returns n distinct names.
 func Names(r *rand.Rand, n int, o NameOpts) []string {
@@ -694,7 +696,7 @@ func (s *Style) filler(sb *strings.Builder) {
 		return
 	}
 	for s.coin(6) {
-		switch s.R.Intn(4) {
+		switch s.R.Intn(5) {
 		case 0:
 			sb.WriteString(s.eol())
 		case 1:
@@ -703,6 +705,9 @@ func (s *Style) filler(sb *strings.Builder) {
 			sb.WriteString(s.cc() + " a comment: 12" + s.eol())
 		case 3:
 			sb.WriteString(s.cc() + s.eol())
+		case 4:
+			// a heading that was commented out, its former lines left in place: a comment like any other
+			sb.WriteString(s.cc() + []string{"2021/01/02:", "lunch:", " 2021/01/03:", "old/recipe:"}[s.R.Intn(4)] + s.eol())
 		}
 	}
 }
